@@ -41,6 +41,10 @@ PROP = {
         "FROM are modelled in their select-project form (SELECT items FROM f [WHERE w]) AS r, every output column typed; a statement "
         "over a derived table with a WHERE of its own is generated without clauses that can fail (the engine merges the two filters); "
         "CASE (searched and simple) is modelled, but not below a unary minus",
+        "string functions UPPER, LOWER, LENGTH, LTRIM, RTRIM and || are modelled on byte strings: letters are the ASCII letters "
+        "(generated texts are ASCII; the engine maps non-ASCII letters by Unicode rules), LENGTH counts UTF-8 characters, the trims "
+        "remove spaces only (since repo 225e08d), NULL in gives NULL out (since repo 2f58b65); CONCAT(), COALESCE, NULLIF and the "
+        "numeric functions are outside the modelled grammar",
         "SUM/AVG return DOUBLE in the engine: compared as exact integers / correctly rounded quotients, for |sum| < 2^53",
         "integer literals and stored values are exactly representable as f64 (the lexer reads numbers as f64)",
         "what a failed INSERT/UPDATE/DELETE leaves behind is C03: statements after a failed DML statement of a case are not compared",
@@ -57,7 +61,7 @@ PROP = {
 
 TEXT = {
     "text": "Lean reference evaluator for the SQL fragment (three-valued logic, comparisons, BETWEEN, IN, IS NULL, LIKE, checked integer "
-            "arithmetic, joins of every type, GROUP BY + aggregates, DISTINCT, ORDER BY, LIMIT/OFFSET, INSERT/UPDATE/DELETE) with theorems "
+            "arithmetic, CASE, string functions, joins of every type, derived tables, GROUP BY + aggregates + HAVING, DISTINCT, ORDER BY, LIMIT/OFFSET, INSERT/UPDATE/DELETE) with theorems "
             "that it obeys the defining laws of SQL for all tables and predicates, and a Lean model of the Pratt parser over the binding-power "
             "table extracted from the code with a parse-print round-trip theorem; both tied to the real engine on every run by thousands of "
             "generated statements through the public Database API.",
